@@ -48,9 +48,34 @@ def protocol_check(ctx, tool, case, thrown=()):
         raise Violation(f"C17/{tool}/{errs[0][0]}", f"{errs[:2]}", case=case)
 
 
+def under_asyncio(fn):
+    """call ``fn()`` while a REAL asyncio event loop is running in this thread: the hand-driven loop inside is
+    then 'some other event loop' that happens to be started from an asyncio program.  Library code that looks
+    for a running asyncio loop finds one; whatever it then awaits (a Future, a shielded task) reaches the
+    hand driver as a foreign suspension."""
+    import asyncio
+
+    async def main():
+        return fn()
+
+    return asyncio.run(main())
+
+
+def with_real_loop(strategy):
+    return st.tuples(strategy, st.sampled_from([False, False, True])).map(lambda t: dict(t[0], real_loop=t[1]))
+
+
 def check_tool(case):
     tool = case["tool"]
     record = []
+    if case.get("real_loop"):
+        if case.get("cancel_at"):
+            return under_asyncio(lambda: _tool_run(case, case["cancel_at"], record))
+        n, sources = under_asyncio(lambda: _tool_run(case, None, record))
+        for i in range(1, n + 1):
+            under_asyncio(lambda i=i: _tool_run(case, i, record))
+        return {"evaluations": n + 1, "nontrivial": ["run"] + [f"throw@{i}" for i in range(1, n + 1)]
+                if (n >= 2 and sources >= 2) else [], "labels": {"driven-runs": n + 1, "under-asyncio-loop": n + 1}}
     undo = install_traps(record)
     try:
         if case.get("cancel_at"):
@@ -67,7 +92,11 @@ def check_tool(case):
 def _tool_run(case, cancel_at, record):
     tool = case["tool"]
     b = build(case, "a")
-    cancel = Cancel("thrown-by-loop") if cancel_at else None
+    # what a loop throws: a private BaseException, or asyncio's own CancelledError (every other position)
+    cancel = None
+    if cancel_at:
+        import asyncio
+        cancel = (asyncio.CancelledError if cancel_at % 2 == 0 else Cancel)("thrown-by-loop")
     vcase = dict(case, cancel_at=cancel_at)
     with loop_mode(b.ctx, "hooks"):
         outcome = run(b.ctx, c18.tool_task(b, case), cancel_at, cancel)
@@ -105,14 +134,22 @@ def check_sync(case):
     """(b): all-synchronous arguments => zero suspensions"""
     tool = case["tool"]
     record = []
-    undo = install_traps(record)
-    try:
+
+    def body():
         b = build(case, "a")
         with loop_mode(b.ctx, "hooks"):
             outcome = run(b.ctx, c18.tool_task(b, case))
             close_orphans(b.ctx)
-    finally:
-        undo()
+        return b, outcome
+
+    if case.get("real_loop"):
+        b, outcome = under_asyncio(body)
+    else:
+        undo = install_traps(record)
+        try:
+            b, outcome = body()
+        finally:
+            undo()
     if record:
         raise Violation(f"C17/{tool}/asyncio-loop-access", f"{record[:3]}")
     if b.ctx.suspensions or b.ctx.foreign:
@@ -136,6 +173,55 @@ def sync_cases(draw, name, long=False):
     if name == "chain_from_iterable":
         case["params"]["outer"]["fl"] = draw(st.sampled_from(["list", "iter"]))
     return case
+
+
+@st.composite
+def huge_cases(draw, name):
+    """inputs beyond any plausible 'this is big, hand it to a worker' threshold (2**16, 10**5)"""
+    n_items = draw(st.sampled_from([2 ** 16 + 3, 100_003]))
+    tool = TOOLS[name]
+    items = [["i", (i * 7919) % 1013] for i in range(n_items)]
+    if name in ("dict",):
+        items = [["t", [["i", i % 1013], ["i", i]]] for i in range(n_items)]
+    if name == "starmap":
+        items = [["t", [["i", i % 1013]]] for i in range(n_items)]
+    srcs = [{"items": items, "fl": draw(st.sampled_from(["list", "iter"])), "susp": 0, "csusp": False, "fault": None}]
+    for _ in range(max(tool.nsrc[0], 1) - 1):
+        srcs.append(dict(srcs[0]))
+    fns = {}
+    for role, _kind in tool.roles:
+        fns[role] = {"kind": "ident" if role != "pred" else "table", "table": [["b", True]], "fl": "def", "susp": 0,
+                     "fault": None}
+    if tool.optional_roles and draw(st.booleans()):
+        role = tool.optional_roles[0][0]
+        fns[role] = {"kind": "ident" if role == "key" else "table", "table": [["b", True]], "fl": "def", "susp": 0,
+                     "fault": None}
+    params = {}
+    if name in ("nlargest", "nsmallest"):
+        params["n"] = draw(st.sampled_from([3, 70_000]))
+    elif name == "sorted":
+        params["reverse"] = draw(st.booleans())
+    elif name == "zip":
+        params["strict"] = False
+    elif name == "enumerate":
+        params["start"] = 0
+    elif name == "batched":
+        params.update(n=draw(st.sampled_from([7, 66_000])), strict=False)
+    elif name == "islice":
+        params["args"] = [66_000, None]
+    elif name == "merge":
+        params["reverse"] = False
+        srcs[0]["items"] = sorted(items, key=lambda d: d[1])
+    elif name == "chain_from_iterable":
+        params["outer"] = {"fl": "list", "susp": 0, "csusp": False, "fault": None}
+    plan = [0] * 3 if tool.kind == "iter" else []
+    if tool.kind == "iter" and name in ("islice", "batched", "merge", "dropwhile", "filter", "filterfalse"):
+        plan = [0] * 3
+    return {"tool": name, "profile": "num", "srcs": srcs, "fns": fns, "params": params, "plan": plan, "close": True}
+
+
+HUGE = ["sorted", "min", "max", "sum", "list", "tuple", "set", "dict", "nlargest", "nsmallest", "reduce", "all", "any",
+        "islice", "batched", "merge", "filter", "zip", "map", "enumerate", "accumulate", "chain"]
 
 
 # ---- special operations reuse the C18 scenarios ---------------------------------------
@@ -426,9 +512,9 @@ def batteries(draw, tier):
 
 
 def shards(tier):
-    out = [Shard(name, check_tool, strategy=c18.tool_cases(name, tier), n=60, nontrivial=lambda c: False,
+    out = [Shard(name, check_tool, strategy=with_real_loop(c18.tool_cases(name, tier)), n=60, nontrivial=lambda c: False,
                  thorough_mult=15) for name in ALL]
-    out += [Shard(f"sync-{name}", check_sync, strategy=sync_cases(name), n=60,
+    out += [Shard(f"sync-{name}", check_sync, strategy=with_real_loop(sync_cases(name)), n=60,
                   nontrivial=lambda c: bool(c["fns"]), thorough_mult=15) for name in ALL]
     specials = [("op-tee-lock", c18.tee_cases, c18.run_tee), ("op-lru_cache", c18.lru_cases, c18.run_lru),
                 ("op-cached_property", c18.prop_cases, c18.run_prop), ("op-exitstack", c18.stack_cases, c18.run_stack),
@@ -438,6 +524,8 @@ def shards(tier):
                          strategy=strat(tier), n=150, nontrivial=lambda c: False, thorough_mult=15))
     out += [Shard(f"sync-long-{name}", check_sync, strategy=sync_cases(name, long=True), n=25,
                   nontrivial=lambda c: True, thorough_mult=10) for name in ALL]
+    out += [Shard(f"sync-huge-{name}", check_sync, strategy=huge_cases(name).map(lambda c: dict(c, real_loop=True)), n=2,
+                  nontrivial=lambda c: True, thorough_mult=2) for name in HUGE if name in TOOLS]
     out.append(Shard("tee-concurrent-close", check_tee_close, strategy=tee_close_cases(), n=400,
                      nontrivial=lambda c: True, thorough_mult=10))
     out.append(Shard("sync-adapters", check_adapter, cases=lambda: [{"adapter": k} for k in _adapters()],
